@@ -103,7 +103,8 @@ Definition tt_result : caps := no_progress full.            (* testtools.TestRes
 (* ---------- the adapter tree ---------- *)
 Inductive adapter :=
 | Target (c : caps)
-| ByTest                                        (* TestByTestResult(on_test) *)
+| ByTest (bad : list nat)                       (* TestByTestResult(on_test); on_test raises (after it has taken
+                                                   its arguments) for the tests whose id is in bad *)
 | E2O (a : adapter)                             (* ExtendedToOriginalDecorator(a) *)
 | Multi (l : list adapter)                      (* MultiTestResult( *l ) *)
 | Deco (a : adapter)                            (* TestResultDecorator(a) *)
@@ -114,7 +115,7 @@ Inductive adapter :=
 Definition iface (a : adapter) : caps :=
   match a with
   | Target c => c
-  | ByTest => tt_result
+  | ByTest _ => tt_result
   | E2O _ => full
   | Multi _ => no_progress full          (* MultiTestResult has no progress() *)
   | Deco _ | Tagger _ _ _ => no_done full  (* TestResultDecorator has no done() *)
@@ -265,7 +266,7 @@ Definition multi_conv (ci : caps) (c : call) : list call :=
 
 (* ---------- paths ---------- *)
 Inductive layer := LE2O | LMulti | LDeco | LTagger (new gone : list tag).
-Inductive leaf := LfTarget (c : caps) | LfByTest.
+Inductive leaf := LfTarget (c : caps) | LfByTest (bad : list nat).
 Definition path := (list layer * leaf)%type.
 
 Definition push (l : layer) (p : path) : path := (l :: fst p, snd p).
@@ -273,7 +274,7 @@ Definition push (l : layer) (p : path) : path := (l :: fst p, snd p).
 Fixpoint paths (a : adapter) : list path :=
   match a with
   | Target c => [([], LfTarget c)]
-  | ByTest => [([], LfByTest)]
+  | ByTest bad => [([], LfByTest bad)]
   | E2O a' => map (push LE2O) (paths a')
   | Multi l => flat_map (fun a' => map (push LMulti) (paths a')) l
   | Deco a' => map (push LDeco) (paths a')
@@ -281,7 +282,7 @@ Fixpoint paths (a : adapter) : list path :=
   end.
 
 Definition leaf_caps (lf : leaf) : caps :=
-  match lf with LfTarget c => c | LfByTest => tt_result end.
+  match lf with LfTarget c => c | LfByTest _ => tt_result end.
 
 (* the interface of the object a path starts with (= iface of the sub-adapter) *)
 Definition piface (ls : list layer) (lf : leaf) : caps :=
@@ -308,7 +309,8 @@ Fixpoint through (ls : list layer) (lf : leaf) (cs : list call) : list call :=
   end.
 
 (* ---------- what a top-level call raises ---------- *)
-Inductive exn := AttributeError | ValueError | TypeError | OtherError.
+Inductive exn := AttributeError | ValueError | TypeError | OtherError
+                 | CallbackError.   (* what a faulty on_test raises *)
 
 (* done() and progress() do not exist everywhere; nothing else raises on a well-formed stack *)
 Fixpoint raises (a : adapter) (c : call) {struct a} : option exn :=
@@ -316,13 +318,13 @@ Fixpoint raises (a : adapter) (c : call) {struct a} : option exn :=
   | Done =>
       match a with
       | Target cp => if c_done cp then None else Some AttributeError
-      | ByTest | E2O _ | Multi _ => None
+      | ByTest _ | E2O _ | Multi _ => None
       | Deco _ | Tagger _ _ _ => Some AttributeError
       end
   | Progress _ _ =>
       match a with
       | Target cp => if c_progress cp then None else Some AttributeError
-      | ByTest | Multi _ => Some AttributeError
+      | ByTest _ | Multi _ => Some AttributeError
       | E2O a' => if c_progress (iface a') then raises a' c else None
       | Deco a' | Tagger _ _ a' => raises a' c
       end
@@ -425,19 +427,40 @@ Definition leaf_run (h : list call) (p : path) : leaf_obs :=
   let cs := through (fst p) (snd p) h in
   match snd p with
   | LfTarget cp => OLog (target_log cp cs)
-  | LfByTest => OCbs (bt_run bt_init cs)
+  | LfByTest _ => OCbs (bt_run bt_init cs)
+  end.
+
+(* ---------- an on_test that raises ---------- *)
+(* TestByTestResult.stopTest: _stop_time, tags = set(current_tags), super().stopTest(test) (the test's
+   TagContext is popped), THEN on_test(...): what on_test raises comes out of stopTest after the result has
+   left the test.  ExtendedToOriginalDecorator, TestResultDecorator and Tagger pass it on; MultiTestResult
+   ._dispatch is a generator expression inside tuple(): the exception ends it, the members after the one that
+   raised are not called. *)
+Definition leaf_bad (lf : leaf) (t : test) : bool :=
+  match lf with LfByTest bad => existsb (Nat.eqb (tid t)) bad | LfTarget _ => false end.
+(* the call does not come back from one of these results *)
+Definition aborts (before : list path) (c : call) : bool :=
+  match c with StopTest t => existsb (fun p => leaf_bad (snd p) t) before | _ => false end.
+(* the part of the history made on a result that is dispatched to after the results [before] *)
+Definition reaching (before : list path) (h : list call) : list call := filter (fun c => negb (aborts before c)) h.
+
+Fixpoint run_leaves (before rest : list path) (h : list call) : list leaf_obs :=
+  match rest with
+  | [] => []
+  | p :: r => leaf_run (reaching before h) p :: run_leaves (before ++ [p]) r h
   end.
 
 (* every call of the history is made on the top of the stack; one that raises is noted with
-   its position and delivers nothing (see [raises]) *)
+   its position; an AttributeError delivers nothing (see [raises]), a faulty on_test has been called *)
 Fixpoint raised_from (a : adapter) (k : nat) (h : list call) : list (nat * exn) :=
   match h with
   | [] => []
   | c :: r => match raises a c with
               | Some e => (k, e) :: raised_from a (S k) r
-              | None => raised_from a (S k) r
+              | None => if aborts (paths a) c then (k, CallbackError) :: raised_from a (S k) r
+                        else raised_from a (S k) r
               end
   end.
 
 Definition run (a : adapter) (h : list call) : list leaf_obs * list (nat * exn) :=
-  (map (leaf_run h) (paths a), raised_from a 0 h).
+  (run_leaves [] (paths a) h, raised_from a 0 h).
